@@ -333,7 +333,63 @@ fn fork_fault_slice(ctx: &Ctx) {
     );
 }
 
+/// A subshell and its parent overlap on one open file description (a full pipe): once the
+/// subshell has been waited for, the parent's descriptors are in the mode they had before
+/// (the shell's own temporary non-blocking I/O must not stick to the shared description).
+fn shared_description_slice(ctx: &Ctx) {
+    const SHAPES: [(&str, &str); 4] = [
+        ("async subshell writes while the parent writes", "{ snap before; ( gen 3000 1 ) & gen 3000 2; wait; snap after; } | sink\n"),
+        ("async brace group writes while the parent writes", "{ snap before; { gen 2500 1; } & gen 1700 2; gen 900 3; wait; snap after; } | sink\n"),
+        ("two async subshells and the parent", "{ snap before; ( gen 2000 1 ) & ( gen 2000 4 ) & gen 2000 2; wait; snap after; } | sink\n"),
+        ("async subshell reads while the parent reads", "gen 6000 5 64 | { snap before; ( sink ) & relay; wait; snap after; } | sink\n"),
+    ];
+    let per = if ctx.quick() { 40 } else { 400 };
+    ctx.par_for(
+        SHAPES.len() * per,
+        |i| {
+            let (name, script) = SHAPES[i / per];
+            let s = (i % per) as u64 + ctx.seed * 1000;
+            let mut cfg = vsh::VCfg::script(script);
+            cfg.extra = vsh::v_probes();
+            let strat = || if i % per == 0 { Strategy::Fifo } else { Strategy::Random { seed: s, preempt_pct: [0, 10, 30][i % 3], max_preempt: 50 } };
+            cfg.strategy = strat();
+            let out = vsh::run_v(cfg);
+            ctx.eval();
+            ctx.count("shared_description_runs", 1);
+            let ctxt = || format!("{name}\nschedule {:?}\nscript:\n{script}stderr:\n{}", strat(), out.err());
+            if out.end != vsh::End::Done {
+                ctx.violation(format!("shared-description:no-termination:{}", i / per), format!("{:?}\n{}", out.end, ctxt()));
+                return;
+            }
+            let snaps: Vec<&Event> = out.events.iter().filter(|e| e.kind == "snap").collect();
+            let find = |tag: &str| snaps.iter().find(|e| e.args[0] == tag).map(|e| parse_snap(e));
+            let (Some(before), Some(after)) = (find("before"), find("after")) else {
+                ctx.violation(format!("shared-description:no-snapshot:{}", i / per), ctxt());
+                return;
+            };
+            for f in PARENT_FACETS.iter().copied().chain(["fd_modes"]) {
+                // (`wait` installs the shell's internal SIGCHLD handler: not a leak from the child)
+                if f == "dispositions" || f == "sigmask" {
+                    continue;
+                }
+                if before.get(f) != after.get(f) {
+                    ctx.violation(
+                        format!("shared-description:leak:{f}"),
+                        format!("the parent's {f} changed across asynchronous subshells that shared its descriptors\nbefore: {:?}\nafter:  {:?}\n{}", before.get(f), after.get(f), ctxt()),
+                    );
+                    return;
+                }
+            }
+            ctx.nontrivial(out.trace_hash ^ (i / per) as u64);
+        },
+        |i, msg| {
+            ctx.violation(if crate::util::panic_in_repo(&msg) { "panic-in-repo" } else { "harness-panic" }, format!("shared-description case {i}: {msg}"));
+        },
+    );
+}
+
 pub fn run(ctx: &Ctx) {
+    shared_description_slice(ctx);
     let quick = ctx.quick();
     let seed = ctx.seed;
     fork_fault_slice(ctx);
